@@ -245,4 +245,68 @@ Section Theorems.
     intros clients c D R j H. pose proof (inv_reachable _ _ D R) as I.
     destruct (b_wit _ (inv3 _ I) j H) as [u [[pt k] [H1 H2]]]. eauto.
   Qed.
+
+  (* ---------- no deadlock ---------- *)
+  Definition is_acquire (pt : point) : bool :=
+    match pt with Enq0 _ _ | Run0 | Done0 _ | Sp0 _ | Bg0 _ | Sj0 _ => true | _ => false end.
+  (* a job body that runs until stopped and has not been asked to stop *)
+  Definition waiting_for_stop (c : config pc) (p : pc) : Prop :=
+    exists j q, fst p = Job1 j q /\ bodies j = BWait /\ flags (sh c) j = false.
+
+  Lemma step_progress : forall c t (p : pc),
+    nth_error (thr c) t = Some p -> finished pc code' p = false ->
+    (exists c', step' c t = Some c') \/
+    (is_acquire (fst p) = true /\ exists o n, lk c = Some (o, n) /\ o <> t) \/
+    waiting_for_stop c p.
+  Proof.
+    intros c t p H F. unfold step. rewrite H. destruct p as [pt k].
+    unfold finished in F. unfold waiting_for_stop, lk.
+    destruct pt; simpl in *;
+      try (destruct k; simpl in *; try discriminate);
+      try (destruct isr_once; simpl in * );
+      try (destruct front; simpl in * );
+      try (left; eexists; reflexivity);
+      try (destruct (locks (sh c) 0) as [[oo nn]|] eqn:E;
+           [ destruct (Nat.eqb_spec oo t);
+             first [ left; eexists; reflexivity | right; left; split; [reflexivity | exists oo, nn; auto] ]
+           | left; eexists; reflexivity ]).
+    all: try (destruct (qu c); left; eexists; reflexivity).
+    all: try (destruct (dict_has (bgd c) j); left; eexists; reflexivity).
+    all: try (destruct (bodies j) eqn:Eb; simpl;
+              [ left; eexists; reflexivity | left; eexists; reflexivity
+              | destruct (flags (sh c) j) eqn:Ef; [left; eexists; reflexivity | right; right; exists j, q; auto] ]).
+  Qed.
+
+  Definition all_enabled_none (c : config pc) : Prop := forall t, step' c t = None.
+
+  (* if no thread can move, every thread has finished or is a job waiting for a stop request
+     that has not been made: the controller itself never blocks *)
+  Theorem no_deadlock : forall clients c, distinct_jobs clients -> reach clients c ->
+    (forall t, step' c t = None) ->
+    forall t p, nth_error (thr c) t = Some p ->
+      finished pc code' p = true \/ waiting_for_stop c p.
+  Proof.
+    intros clients c D R Stuck t p Hp. pose proof (inv_reachable _ _ D R) as I.
+    destruct (finished pc code' p) eqn:F; auto. right.
+    destruct (step_progress c t p Hp F) as [[c' S]|[[A [o [n [L Ne]]]]|W]]; auto.
+    - rewrite Stuck in S. discriminate.
+    - (* blocked on the lock: its owner can move *)
+      exfalso. destruct (i_lockown _ (inv1 _ I) _ _ L) as [Lo Ln].
+      destruct (nth_error (thr c) o) as [po|] eqn:Ho; [|apply nth_error_None in Ho; lia].
+      pose proof (i_lock _ (inv1 _ I) _ _ Ho) as Hd. unfold owner_depth in Hd. rewrite L, Nat.eqb_refl in Hd.
+      assert (Fo : finished pc code' po = false).
+      { destruct (finished pc code' po) eqn:Fo; auto. exfalso. destruct po as [pto ko].
+        pose proof (i_wf _ (inv1 _ I) _ _ Ho) as W. unfold held in Hd. simpl in Hd.
+        unfold finished in Fo. destruct pto; simpl in Fo; try discriminate;
+          try (destruct ko; simpl in *; try discriminate; try lia);
+          try (destruct (bodies j); discriminate);
+          try (destruct isr_once; discriminate);
+          try (destruct front; discriminate). }
+      destruct (step_progress c o po Ho Fo) as [[c' S]|[[A' [o' [n' [L' Ne']]]]|[j [q [E1 _]]]]].
+      + rewrite Stuck in S. discriminate.
+      + rewrite L in L'. inversion L'. congruence.
+      + destruct po as [pto ko]. simpl in E1. subst pto.
+        pose proof (i_wf _ (inv1 _ I) _ _ Ho) as W. unfold wf_pc in W. simpl in W.
+        destruct ko; simpl in *; try discriminate. unfold held in Hd. simpl in Hd. lia.
+  Qed.
 End Theorems.
